@@ -938,6 +938,16 @@ class ModelsMixin(object):
                 self.eng.externals_used.add("bytes.decode('utf-8') (assumed: total on utf8_ok, inverse of encode)")
                 self.assume_raw(z3.And(z3.Length(s) <= z3.Length(t), 4 * z3.Length(s) >= z3.Length(t)))
                 return SStr(s)
+            errors = kwargs.get("errors", args[1] if len(args) > 1 else "strict")
+            if errors == "replace":
+                # every undecodable byte sequence becomes U+FFFD: the result is some text that contains
+                # the replacement character (its other characters are not modelled)
+                r = self.fresh_str("decoded_with_replacement")
+                self.assume_raw(z3.Contains(r.term, z3.StringVal("\\u{fffd}")))
+                self.assume_raw(z3.Length(r.term) <= z3.Length(t))
+                self.eng.externals_used.add("bytes.decode('utf-8', errors='replace') on invalid UTF-8: some text "
+                                            "containing U+FFFD")
+                return r
             self.py_raise(UnicodeDecodeError, "utf-8", b"", 0, 1, "invalid start byte")
         if name == "startswith":
             p = args[0]
